@@ -80,7 +80,7 @@ PROPS = {
     'C09': {
         'correspondence': CORR_L1,
         'coq': ['theories/Props/C09.vo', 'theories/Inst/C09_now.vo'],
-        'profiles': [prof('try', (80, 20), (2000, 80)), prof('sweep:overlap_sweep.progs', (0, 2), (0, 12))],
+        'profiles': [prof('try', (80, 20), (2000, 80)), prof('sweep:overlap_sweep.progs', (0, 2), (0, 12)), prof('progs:try_extra.progs', (0, 60), (0, 1500))],
         'monitors': ['C09'], 'liveness': True, 'panics': False,
         'trusted_base': L1_TRUST,
         'assumptions': [],
@@ -112,7 +112,7 @@ PROPS = {
     'C16': {
         'correspondence': {'kind': 'pipe', 'profiles': [prof('pipedrop', (40, 5), (400, 10)), prof('progs:pipe_extra.progs', (0, 4), (0, 30))]},
         'coq': ['theories/Pipe/PropsC16.vo', 'theories/Inst/C16_now.vo'],
-        'profiles': [prof('pipedrop', (80, 25), (1500, 80), extra=['--max-steps', '30000'])],
+        'profiles': [prof('pipedrop', (80, 25), (1500, 80), extra=['--max-steps', '30000']), prof('progs:pipe_lastowner.progs', (0, 100), (0, 2000), extra=['--max-steps', '30000'])],
         'monitors': ['C16', 'C12', 'C05'], 'liveness': True, 'panics': True,
         'trusted_base': ['Pipe model (coq/theories/Pipe/Model.v), see C12'],
         'assumptions': ['"released" = poll_fn is None OR nothing references the PipeContext any more (with the drop landing on a throttled producer the input stream and closure are freed by reference counting, never by poll_fn := None; the literal reading is refuted in PropsC16.v)'],
@@ -143,9 +143,9 @@ PROPS = {
     'C17': {
         'correspondence': CORR_L1,
         'coq': ['theories/Props/C17.vo', 'theories/Inst/C17_now.vo'],
-        'profiles': [prof('pool', (60, 15), (1500, 60))],
-        'monitors': ['C17'], 'liveness': False, 'panics': False,
-        'trusted_base': L1_TRUST,
-        'assumptions': ['set_max_threads\' wake-up loop and despawn are exercised by the harness teardown, not modelled'],
+        'profiles': [prof('pool', (60, 15), (1500, 60)), prof('poolchg', (80, 20), (2000, 60))],
+        'monitors': ['C17'], 'liveness': True, 'panics': False,
+        'trusted_base': L1_TRUST + ['live/peak count of pool threads from the shim\'s spawn/exit hooks (every thread ever started is counted, also one the scheduler never listed)'],
+        'assumptions': ['the model has a fixed maximum; maximum changes (M<n>/m<n> of the poolchg profile: set the maximum, despawn_threads_if_overloaded, bounded wake-up loop when raising) are exercised, not modelled. The counts are checked after changes made between phases (nothing queued, running or busy: what the property quantifies over); a lowering that races with scheduling calls can leave one thread above the new maximum on the unchanged code (the spawn decision reads the maximum before it takes the threads lock) and is only checked for "despawn returns"'],
     },
 }
